@@ -33,6 +33,17 @@ pub fn scenario(g: &mut G, ctx: &RunCtx) -> RunReport {
         let (v, n) = gen::read_sizes(g);
         plan.read_mode = ReadMode::Sizes(v, n);
     }
+    if plan.via_text_reader && matches!(plan.read_mode, ReadMode::Sizes(..)) && plan.payload.len() % 2 == 0 && !plan.payload.is_empty() {
+        // text in a single-byte charset: every octet is a complete character, so everything that has
+        // arrived can be decoded and handed out - also octets that look like the start of a byte order
+        // mark (EF, FE, FF) to a decoder that sniffs for one
+        const PALETTE: &[u8] = &[0xEF, 0xFE, 0xFF, 0xBB, 0xE9, b'a', 0xC0, b' ', 0xBF];
+        let n = plan.payload.len();
+        plan.repaint_payload(|i, _| PALETTE[(i * 7 + i / 9 + n) % PALETTE.len()]);
+        plan.repaint_payload(|i, b| if i == 0 { [0xEFu8, 0xFE, 0xFF][n % 3] } else { b });
+        plan.text_charset = Some([encoding_rs::WINDOWS_1251, encoding_rs::KOI8_R, encoding_rs::WINDOWS_1252, encoding_rs::ISO_8859_2][(n / 2) % 4]);
+        g.probe("text-reader-over-a-single-byte-charset");
+    }
     // where the server goes silent (connection stays open)
     let head_len = plan.wire.head_len;
     let frame_end = plan.wire.frame_end;
@@ -107,6 +118,20 @@ fn oracle(plan: &BodyPlan, o: &Observed, h: &attosim::History, plain_out: &[(u64
             format!("send() returned at t={}ns but the blank line arrived at t={}ns", o.send_t.1, t_head),
         );
     }
+    // the text reader hands out UTF-8: output offset of the text decoded from the first n payload octets
+    // (single-byte charsets decode octet by octet)
+    let out_off: Option<Vec<usize>> = plan.text_charset.map(|cs| {
+        let mut v = Vec::with_capacity(plan.payload.len() + 1);
+        let mut total = 0usize;
+        v.push(0);
+        for b in &plan.payload {
+            total += cs.decode_without_bom_handling(std::slice::from_ref(b)).0.len();
+            v.push(total);
+        }
+        v
+    });
+    let off = |n: usize| -> usize { out_off.as_ref().map(|v| v[n.min(v.len() - 1)]).unwrap_or(n) };
+    let payload_out_len = off(plan.payload.len());
     let steps = if plan.tls { bodyx::delivery_steps_plain(plain_out, head_len) } else { bodyx::delivery_steps(h, head_len) };
     let body = &plan.wire.bytes[head_len..k];
     // deliverable payload bytes and completeness after each delivery step
@@ -114,7 +139,7 @@ fn oracle(plan: &BodyPlan, o: &Observed, h: &attosim::History, plain_out: &[(u64
     for (t, nbody) in &steps {
         let r = ref_decode(plan.framing, plan.declared_len, &body[..(*nbody).min(body.len())]);
         let done = r.end == RefEnd::Complete && plan.framing != Framing::Close;
-        table.push((*t, r.sure_output.len(), done));
+        table.push((*t, off(r.sure_output.len()), done));
     }
     let at = |t: u64| -> (usize, bool) {
         let mut cur = (0usize, false);
@@ -151,11 +176,11 @@ fn oracle(plan: &BodyPlan, o: &Observed, h: &attosim::History, plain_out: &[(u64
         let (d_in, done_in) = at(c.t_in);
         // earliest instant >= t_in at which the call can be satisfied
         let mut t_star = None;
-        if d_in > handed || (done_in && handed == plan.payload.len()) {
+        if d_in > handed || (done_in && handed == payload_out_len) {
             t_star = Some(c.t_in);
         } else {
             for (ts, d, done) in &table {
-                if *ts > c.t_in && (*d > handed || (*done && handed == plan.payload.len())) {
+                if *ts > c.t_in && (*d > handed || (*done && handed == payload_out_len)) {
                     t_star = Some(*ts);
                     break;
                 }
@@ -173,7 +198,7 @@ fn oracle(plan: &BodyPlan, o: &Observed, h: &attosim::History, plain_out: &[(u64
             }
             match &c.res {
                 Ok(n) if *n >= 1 => {}
-                Ok(0) if at(ts).1 && handed == plan.payload.len() => {}
+                Ok(0) if at(ts).1 && handed == payload_out_len => {}
                 other => {
                     return violation(
                         "deliverable-data-not-delivered",
